@@ -240,6 +240,21 @@ def run(ctx):
         ctx.check("R7", gc, any(isinstance(n, ast.Raise) for n in A.walk(h[0])), "other-errors-propagate", "any other read error propagates")
     ctx.floor("R7", 4)
 
+    # ---- R8 TarInfo.isdev() also holds for fifos: the fifo test must come first --------------------------------------------
+    a2f = P.func("pkgcore.fs.tar", "archive_to_fsobj")
+    order = []
+    for n in A.body_walk(a2f.node):
+        if isinstance(n, ast.If):
+            for c in ast.walk(n.test):
+                if isinstance(c, ast.Call) and A.call_attr(c) in ("isfifo", "isdev"):
+                    order.append((n.lineno, A.call_attr(c)))
+    order.sort()
+    kinds = [k for _, k in order]
+    ctx.check("R8", a2f, "isfifo" in kinds and "isdev" in kinds and kinds.index("isfifo") < kinds.index("isdev"), "fifo-before-dev:" + ">".join(kinds),
+              "named pipes are recognised before the generic device test",
+              f"archive_to_fsobj tests {' then '.join(kinds)}: tarfile's isdev() is true for FIFOTYPE too, so a fifo member is taken for a device node and the archive cannot be read")
+    ctx.floor("R8", 1)
+
 
 F = "src/pkgcore/fs/tar.py"
 MUTANTS = [
